@@ -146,25 +146,30 @@ fn full_bunch_counters_empty_nopanic() {
 }
 
 // ---- contract-shaped stand-in for analyze_alpide_frame (used by the frame-level harness in alpide.rs):
-// the k-th analysed lane gets outcome LANE_OUTCOME[k]: 0 = no errors (bunch counter LANE_BC[k]), 1 = lane
+// the k-th analysed lane gets outcome LN.outcome[k]: 0 = no errors (bunch counter LN.bc[k]), 1 = lane
 // errors, 2 = lane announced a fatal state
-pub(crate) static mut LANE_OUTCOME: [u8; 3] = [0; 3];
-pub(crate) static mut LANE_BC: [u8; 3] = [0; 3];
-pub(crate) static mut LANE_CALLS: usize = 0;
+pub(crate) struct LaneRec {
+    pub marker: u64,
+    pub outcome: [u8; 3],
+    pub bc: [u8; 3],
+    pub calls: usize,
+}
+// one static with a unique marker (see support.rs)
+pub(crate) static mut LN: LaneRec = LaneRec { marker: 0x5EED_0000_0000_0005, outcome: [0; 3], bc: [0; 3], calls: 0 };
 pub(crate) fn stub_analyze_alpide_frame<'a>(a: &mut LaneAlpideFrameAnalyzer<'a>, _f: &LaneDataFrame) -> Result<(), String>
 where
     'a: 'a,
 {
-    let k = unsafe { LANE_CALLS };
-    unsafe { LANE_CALLS += 1 };
-    let o = if k < 3 { unsafe { LANE_OUTCOME[k] } } else { 0 };
+    let k = unsafe { LN.calls };
+    unsafe { LN.calls += 1 };
+    let o = if k < 3 { unsafe { LN.outcome[k] } } else { 0 };
     if o == 1 {
         Err(String::new())
     } else if o == 2 {
         a.lane_status_fatal = true;
         Ok(())
     } else {
-        a.validated_bc = Some(if k < 3 { unsafe { LANE_BC[k] } } else { 0 });
+        a.validated_bc = Some(if k < 3 { unsafe { LN.bc[k] } } else { 0 });
         Ok(())
     }
 }
